@@ -764,6 +764,15 @@ void exec_op(World& w, const Op& op) {
       bool e = w.str(i).equals(w.str(j));
       SIM_CHECK(e == (w.str_model[i] == w.str_model[j]), "c18:string-equals", "equals() returned %d", int(e));
       SIM_CHECK(w.str(i).equals(w.str_model[i].c_str()), "c18:string-equals", "equals(const char*) is false for equal content");
+      {
+        // a string with an embedded NUL is longer than - and therefore different from - the C string that ends there
+        String t;
+        if (t.assign(w.str_model[j].data(), w.str_model[j].size()) == Error::kOk && t.append_chars('\0', 1) == Error::kOk && t.append(w.str_model[i].data(), w.str_model[i].size()) == Error::kOk && t.append("cd") == Error::kOk) {
+          SIM_CHECK(!t.equals(t.data()), "c18:string-equals", "a %zu-byte string with an embedded NUL at %zu compares equal to the C string that ends at the NUL", t.size(), w.str_model[j].size());
+          SIM_CHECK(t.equals(t.data(), t.size()) && !t.equals(w.str_model[j].c_str()), "c18:string-equals", "equals() of a string with an embedded NUL is wrong");
+          sim::count("c18.probe.string_with_embedded_nul_compared");
+        }
+      }
       break;
     }
     case kAStrSet: {
